@@ -85,6 +85,7 @@ struct CmdSpec {
 	bool trace_stat = false;
 	std::vector<Fault> faults;
 	bool no_hash_opt = false; // do not force the hash kind
+	unsigned stream_size = 0; // knob: size of the stream buffers of stream.c (0 = default 64 KiB)
 	Json to_json() const;
 	static CmdSpec from_json(const Json& j);
 };
